@@ -154,8 +154,14 @@ def _normalize(P, g):
     t = P.reals("t", 3)
     p = g.PoseSE3(t, q)
     before = _rot(*q)
+    _ = (p.inverse, p + p, p.copy(), p.to_matrix())  # the object is used before it is normalised (nothing may be cached)
     p.normalize()
     r = p[3:]
+    inv = p.inverse
+    P.check_eq("inverse_after_normalize_unit", inv[3] * inv[3] + inv[4] * inv[4] + inv[5] * inv[5] + inv[6] * inv[6], 1.0)
+    fresh = g.PoseSE3([p[0], p[1], p[2]], [p[3], p[4], p[5], p[6]])
+    P.check_eq("inverse_after_normalize_is_that_of_a_fresh_pose", inv.to_array(), fresh.inverse.to_array())
+    P.check_eq("compose_after_normalize_is_that_of_a_fresh_pose", (p + p).to_array(), (fresh + fresh).to_array())
     P.check_eq("unit", r[0] * r[0] + r[1] * r[1] + r[2] * r[2] + r[3] * r[3], 1.0)
     P.check("w_nonneg", r[3] >= 0)
     after = _rot(*r)
